@@ -532,6 +532,17 @@ def check_conf(ctx, kind, flag, m, salt):
             l.set_from_standard_qtomography_option_data(qt, ocls("identity"), data2, True, False)
             if not close(float(l.value(xp)), ref_new, 1e-9):
                 ctx.violate(f"C12/{name}-wre/reuse/new-data", f"{name} relative entropy re-configured with new data: value {float(l.value(xp))} vs {ref_new}", rep)
+    # --- (4b) relative entropy re-configured custom → identity: the weights must be gone
+    if min(float(np.min(p)) for p in pb) > 0.02:
+        wopt2 = [float(v) for v in g.integers(2, 6, size=S)]
+        ref_id = sum(sum(fi * math.log(fi / pi) for fi, pi in zip(f, p) if fi > 0) for p, f in zip(pb, qs))
+        for name, cls, ocls in (("generic", WRE, WREO), ("fast", FWRE, FWREO)):
+            l = cls(nv)
+            l.set_from_standard_qtomography_option_data(qt, ocls("custom", weights=wopt2), data, True, False)
+            l.set_from_standard_qtomography_option_data(qt, ocls("identity"), data, True, False)
+            if not close(float(l.value(xp)), ref_id, 1e-8):
+                ctx.violate("C12/wre/reconfigure/identity-keeps-custom-weights",
+                            f"{name} relative entropy reconfigured custom→identity still applies the custom weights: {float(l.value(xp))} vs {ref_id}", rep)
     # --- (4) re-configuration of one object: custom → identity, custom W1 → custom W2
     W1, W2 = sym_weights(g, S, mm), sym_weights(g, S, mm)
     pbx = _born_at(qt, kind, testers, x)
